@@ -1,7 +1,7 @@
 //@unit C10_dispose
 //@props C10
 //@safetyprops C14
-//@desc What the destructors and CleanUp release (C10: no leak, no double free, no use after free) - BOUNDED harnesses over concrete lists of symbolic shape. DisposeOutPts (ring of 1..4 vertices): every vertex of the ring is deleted exactly once, nothing else is, no vertex is read after it was deleted, and the OutRec gives the ring up (`pts == nullptr`). DisposeAllOutRecs (2 OutRecs, each with a ring of 1..2 vertices or none, each with or without a split list): every ring vertex, every split list and every OutRec is deleted exactly once and the list is emptied. DeleteEdges (AEL of 0..3 edges): every edge is deleted exactly once, the head is null afterwards, no edge is read after its deletion. new/delete are pools with double-delete and use-after-delete detection.
+//@desc What the destructors and CleanUp release (C10: no leak, no double free, no use after free) - BOUNDED harnesses over concrete lists of symbolic shape. DisposeOutPts (ring of 1..4 vertices): every vertex of the ring is deleted exactly once, nothing else is, no vertex is read after it was deleted, and the OutRec gives the ring up (`pts == nullptr`). DisposeAllOutRecs (2 OutRecs, each with a ring of 1..2 vertices or none, each with or without a split list): every ring vertex, every split list and every OutRec is deleted exactly once and the list is emptied. DisposeVerticesAndLocalMinima and ReuseableDataContainer64::Clear (0..3 vertex arrays): every array released once with delete[], both lists emptied. DeleteEdges (AEL of 0..3 edges): every edge is deleted exactly once, the head is null afterwards, no edge is read after its deletion. new/delete are pools with double-delete and use-after-delete detection.
 #include "vf.h"
 //@include engine_types.inc
 #ifndef R
@@ -34,6 +34,18 @@ static Active* vf_alive(Active* e) { for (int q_ = 0; q_ < 3; ++q_) if (e == &g_
 //@extract file=CPP/Clipper2Lib/src/clipper.engine.cpp func=ClipperBase::DeleteEdges self=ClipperS byptr=e ifdef=EDGES
 //@sub /delete e2;/VF_DELETE_E(e2);/
 //@sub /\(\*e\) = e->next_in_ael;/VF_ADV(e);/
+//@end
+/* vertex arrays (one `new Vertex[n]` per AddPaths call): each released once with delete[], both lists emptied */
+typedef struct { VF_Vec minima_list_; VF_Vec vertex_lists_; } VOwnerS;
+Vertex g_va0[1], g_va1[1], g_va2[1]; bool g_vadel[3]; int g_vabad;
+#define VF_DELETE_ARR(v) do { int k_ = (v) == g_va0 ? 0 : (v) == g_va1 ? 1 : (v) == g_va2 ? 2 : -1; if (k_ >= 0) { __CPROVER_assert(!g_vadel[k_], "no double delete[] of a vertex array"); g_vadel[k_] = true; } else g_vabad++; } while (0)
+//@extract file=CPP/Clipper2Lib/src/clipper.engine.cpp func=ClipperBase::DisposeVerticesAndLocalMinima self=VOwnerS rangefor=1 vec=vertex_lists_,minima_list_ ifdef=VERTS
+//@sub /delete\s*\[\]\s*v;/VF_DELETE_ARR(v);/
+//@sub /self->vertex_lists_\.data\[vf_i_v\]/((Vertex**)self->vertex_lists_.data)[vf_i_v]/ min=0
+//@end
+//@extract file=CPP/Clipper2Lib/src/clipper.engine.cpp func=ReuseableDataContainer64::Clear as=RDC_Clear self=VOwnerS rangefor=1 vec=vertex_lists_,minima_list_ ifdef=VERTS
+//@sub /delete\s*\[\]\s*v;/VF_DELETE_ARR(v);/
+//@sub /self->vertex_lists_\.data\[vf_i_v\]/((Vertex**)self->vertex_lists_.data)[vf_i_v]/ min=0
 //@end
 unsigned nondet_uint(void); bool nondet_bool(void);
 static void mk_ring(unsigned lo, unsigned n, OutRec* o) { for (unsigned i = 0; i < n; ++i) { g_ring[lo + i].next = &g_ring[lo + (i + 1) % n]; g_ring[lo + i].prev = &g_ring[lo + (i + n - 1) % n]; g_ring[lo + i].outrec = o; } }
@@ -69,6 +81,18 @@ void h_ALL(void)
   VF_CANARY();
 }
 #endif
+#ifdef VERTS
+void h_DV(void)
+{
+  VOwnerS s; Vertex* lists[3] = { g_va0, g_va1, g_va2 }; unsigned n = nondet_uint() % 4; bool container = nondet_bool();
+  s.vertex_lists_.data = lists; s.vertex_lists_.size = n; s.minima_list_.size = nondet_uint(); g_vabad = 0;
+  for (int i = 0; i < 3; ++i) g_vadel[i] = false;
+  if (container) RDC_Clear(&s); else DisposeVerticesAndLocalMinima(&s);
+  for (unsigned i = 0; i < 3; ++i) __CPROVER_assert(g_vadel[i] == (i < n), "every vertex array is released exactly once");
+  __CPROVER_assert(g_vabad == 0 && s.vertex_lists_.size == 0 && s.minima_list_.size == 0, "nothing else is released; both lists are emptied");
+  VF_CANARY();
+}
+#endif
 #ifdef EDGES
 void h_DE(void)
 {
@@ -85,3 +109,4 @@ void h_DE(void)
 //@run name=DisposeAllOutRecs entry=h_ALL defs=ALL,R=2 unwind=6 flags="--bounds-check --pointer-check" timeout=300 bounded="list of 0..2 OutRecs, each with a ring of 0..2 vertices and with or without a split list"
 //@run name=DeleteEdges entry=h_DE defs=EDGES unwind=6 flags="--bounds-check --pointer-check" timeout=300 bounded="AEL of 0..3 edges"
 //@assume A5 (C10_dispose): `delete` is a marking of pool objects with double-delete detection, and every `->next` read of an OutPt (and the `next_in_ael` read of an edge) in the extracted bodies goes through a use-after-delete check (logged rewrites); ~OutRec() is modelled from its source text (`if (splits) delete splits;`, checked by an //@expect fact).
+//@run name=DisposeVertices entry=h_DV defs=VERTS unwind=6 flags="--bounds-check --pointer-check" timeout=300 bounded="0..3 vertex arrays; ClipperBase::DisposeVerticesAndLocalMinima and ReuseableDataContainer64::Clear"
